@@ -167,6 +167,17 @@ def synthetic(case):
             mi.type = tid
             mi.version.extend([1, 0, 5])
             mi.length = len(mb)
+        if case.get("header_len"):
+            # a segment header of an exact byte length (around the 1-byte / 2-byte / 3-byte boundaries of its varint length prefix)
+            while info.ByteSize() < case["header_len"]:
+                info.message_infos[0].version.append(1)
+            if info.ByteSize() != case["header_len"]:
+                info.message_infos[0].version.append(300)  # a two-byte element bridges a skipped size
+                del info.message_infos[0].version[-3:-1]
+                while info.ByteSize() < case["header_len"]:
+                    info.message_infos[0].version.append(1)
+            if info.ByteSize() != case["header_len"]:
+                return {"detail": f"harness: cannot build a header of {case['header_len']} bytes (got {info.ByteSize()})"}
         hb = info.SerializeToString()
         stream += _varint(len(hb)) + hb + b"".join(msgs)
     data = b""
@@ -295,6 +306,8 @@ def main():
         cases.append({"kind": "synthetic", "size": size, "seed": a.seed})
         cases.append({"kind": "synthetic", "size": size, "seed": a.seed + 1, "random": False})
     cases.append({"kind": "synthetic", "size": 300, "seed": a.seed, "segments": 40})
+    for hl in (127, 128, 129, 255, 256, 16383, 16384, 16385):
+        cases.append({"kind": "synthetic", "size": 50, "seed": a.seed + hl, "segments": 2, "header_len": hl})
     cases.append({"kind": "synthetic", "size": 5000, "seed": a.seed, "segments": 3, "messages": 4})
     for cuts in ("empty-lead", "empty-trail", "empty-mid", "empty-seg", "many"):
         cases.append({"kind": "synthetic", "size": 700, "seed": a.seed + 5, "segments": 6, "cuts": cuts})
